@@ -80,10 +80,16 @@ class Report:
         ev = {"property_id": self.pid, "tier": self.tier, "seed": self.seed, "level": "model_checking",
               "coverage": cov, "assumptions": self.assumptions,
               "wall_s": round(time.time() - self.t0, 2), "violations": len(seen)}
-        os.makedirs(os.path.join(VERIF, "evidence"), exist_ok=True)
-        tmp = os.path.join(VERIF, "evidence", self.pid + ".json.tmp")
+        # Evidence under /verif/evidence always describes /repo itself: a run against another tree
+        # ($VERIF_REPO, used for mutation and seeded-change experiments) writes elsewhere.
+        alt = os.environ.get("VERIF_REPO")
+        evdir = os.path.join(VERIF, "evidence")
+        if alt and os.path.realpath(alt) != os.path.realpath("/repo"):
+            evdir = os.path.join(VERIF, "work", "evidence-other-tree")
+        os.makedirs(evdir, exist_ok=True)
+        tmp = os.path.join(evdir, self.pid + ".json.tmp")
         with open(tmp, "w") as f:
             json.dump(ev, f, indent=1, sort_keys=True)
             f.write("\n")
-        os.rename(tmp, os.path.join(VERIF, "evidence", self.pid + ".json"))
+        os.rename(tmp, os.path.join(evdir, self.pid + ".json"))
         return 1 if seen else 0
